@@ -145,8 +145,9 @@ def rebuild_args(spec):
     return out
 
 
-def san_corpus(ctx, asan_dir):
+def san_corpus(ctx, asan_dir, attempt=1):
     K = 16
+    stale = False
     out = os.path.join(core.VERIF, 'build', 'run', 'c17_' + ctx.tier + core.TAG)
     shutil.rmtree(out, ignore_errors=True)
     os.makedirs(out)
@@ -191,6 +192,8 @@ def san_corpus(ctx, asan_dir):
             ctx.fail('san/%s/died-rc=%s' % (last['kernel'] if last else 'unknown', p.returncode),
                      'driver process died without a sanitizer report', dict(last_call=last, stderr=err[-2000:]))
             continue
+        if 'leak of' in err and re.search(r'\(/[^)\n]*/build/core/[^)\n]*\+0x[0-9a-f]+\)', err):
+            stale = True              # frames inside the kernel build that could not be symbolized (build directory gone)
         for kernel, where, block in kernel_leaks(err):
             ctx.fail('san/%s/leak' % kernel, 'memory allocated at %s is never released' % where, dict(report=block))
         d = json.load(open(pj))
@@ -199,6 +202,13 @@ def san_corpus(ctx, asan_dir):
         for src, dst in ((d['calls'], calls), (d['ops'], ops), (d['exc'], exc)):
             for key, v in src.items():
                 dst[key] = dst.get(key, 0) + v
+    if stale or not os.path.exists(os.path.join(asan_dir, 'OK')):
+        # the sanitizer build disappeared under the run (cache eviction by a concurrent check): leak reports are
+        # symbolized from the files at exit, so this run proves nothing about leaks -- rebuild and repeat once
+        if attempt == 1:
+            ctx.notes.append('sanitizer build vanished during the run; rebuilt and repeated')
+            return san_corpus(ctx, core.native_build(asan=True), attempt=2)
+        ctx.disagree('sanitizer reports symbolized against the kernel build', dict(build=asan_dir), 'build present', 'build vanished twice')
     total = sum(calls.values())
     ctx.evaluations += total
     for kname, v in calls.items():
